@@ -28,12 +28,12 @@ CHECKS = {
     "C09": dict(
         engine="stream-xml", category="fault_enumeration", design_ref="§6.1",
         technique="deterministic simulation of the io.Reader seam: seeded delivery schedules, exhaustive truncation and read-error offsets per generated document, sampled corruption; oracle = abstract document the text was generated from + one-bit 'decoder detects an error' predicate",
-        text="Every generated document is pushed through ReadXml under the reference delivery, drawn chunkings (1 byte, inside multi-byte sequences and markup tokens, zero-length reads, EOF with data), every truncation offset, a read error at every offset and sampled corruptions. Fault-free runs must reproduce the abstract document exactly (names, attributes, text merging, comments, PIs, one owned namespace node per in-scope binding); faulted runs must return an error whenever the decoder detects one, never a partial tree with nil error. Seeded sampling of documents, exhaustive over fault offsets per document: evidence, not proof.",
+        text="Every generated document is pushed through ReadXml under the reference delivery, drawn chunkings (1 byte, inside multi-byte sequences and markup tokens, zero-length reads, EOF with data), every truncation offset, a read error at every offset and sampled corruptions. Fault-free runs must reproduce the abstract document exactly (names, attributes, text merging, comments, PIs, one owned namespace node per in-scope binding); faulted runs must return an error whenever the decoder detects one, never a partial tree with nil error. Also: documents padded across the 4 KiB buffer boundary, a custom-entity parse option, and two Parser objects alive with interleaved Pull calls (each tree must equal the tree of the same bytes parsed alone). Seeded sampling of documents, exhaustive over fault offsets per document: evidence, not proof.",
         note="Trusts encoding/xml's tokeniser as the detector of malformedness for faulted inputs and the generator bounds of DESIGN §5 (no DTD subset, no literal TAB/LF/CR in attribute values, no BOM, XML 1.0)."),
     "C10": dict(
         engine="events", category="exploration", design_ref="§6.3",
         technique="deterministic simulation of the Parser seam: seeded event histories (incl. surplus end events, deep spines, same-prefix redeclaration) against a stack-machine reference model, plus a goroutine-stack ceiling fault (debug.SetMaxStack in child processes) on 10^5..3x10^6-event flat histories",
-        text="A scripted user-supplied Parser feeds contract-conforming histories into store.CreateInMemory; the tree read back through the public Cursor API must equal a 40-line stack-machine model (shape, node identity, Pos unique/increasing in document order, Parent consistency, owned namespace nodes per in-scope prefix). The stack bound is decided under an injected stack ceiling that scales with nesting depth only.",
+        text="A scripted user-supplied Parser feeds contract-conforming histories into store.CreateInMemory; the tree read back through the public Cursor API must equal a 40-line stack-machine model (shape, node identity, Pos unique/increasing in document order, Parent consistency, owned namespace nodes per in-scope prefix). A second, unrelated build must leave the first tree intact. The stack bound is decided under an injected stack ceiling that scales with nesting depth only (a build that is merely slow is noted, not judged).",
         note="Seeded sampling of histories (<= 2000 events, depth <= 200) plus seven long flat shapes; the root's own Parent() and the order among namespace nodes are not constrained."),
     "C16": dict(
         engine="stream-json", category="fault_enumeration", design_ref="§6.2",
@@ -48,17 +48,17 @@ CHECKS = {
     "C13": dict(
         engine="history", category="exploration", design_ref="§6.4",
         technique="deterministic simulation of the caller and of user callbacks: seeded call histories over shared cursors, shared compiled expressions, caller-owned maps and held result slices (aliasing, spare capacity), callbacks that fail, panic, hand out held slices or re-enter Exec; oracle = snapshot invariants + the same query in a fresh isolated world",
-        text="Each run is a history of 3-24 public API calls on 1-3 shared documents. After every operation: documents, held slices, caller-owned maps and the exported face of every compiled expression are unchanged (I1); every query equals the same query in a fresh isolated world - re-parsed documents, re-built expression, re-created bindings (I2); verbatim repeats agree (I3); rebuilding a string gives the same parse structure (I4).",
+        text="Each run is a history of 3-24 public API calls on 1-3 shared documents. After every operation: documents, held slices, caller-owned maps and the exported face of every compiled expression are unchanged (I1); every query equals the same query in a fresh isolated world - re-parsed documents, re-built expression, re-created bindings (I2); verbatim repeats agree (I3); rebuilding a string gives the same parse structure (I4). Bindings (prefixes, scalar variables, function sets) vary per operation on the same compiled expression. Two oracles do not depend on process state: the isolated evaluation repeated after the call must not change (hidden global state), and every field Unmarshal filled must equal its own tag query evaluated directly.",
         note="No XPath reference evaluator: the implementation is compared with itself, so defects that do not depend on history cancel (those belong to not-applicable properties). Only public observations are used. I4 replays probabilistically."),
     "C14": dict(
         engine="sched-lib + sched-cli", category="exploration", design_ref="§6.6, §4",
         technique="deterministic simulation with seeded schedulers over yield points inserted at build time (go build -overlay, nothing committed in /repo): scheduler L = turn token without happens-before edges so that the Go race detector stays sound under a chosen interleaving (plain + -race builds, same seeds); scheduler P = park/release with blocked-state detection from goroutine wait reasons, driving the real CLI main() as task 0",
-        text="Library: 2-4 tasks run Exec/Unmarshal/GetCursorString/BuildExpr on one shared tree, one pool of compiled expressions and one set of bindings (incl. shared node-set variables with spare capacity); every operation must return its isolated-world result, the shared world must be unchanged after the join, and the -race build of the same seeds must report nothing in /repo code. CLI: `-c N` under drawn schedules (uniform, priority change points, run-to-block, starvation) must terminate by main returning and print exactly the per-file blocks of `-c 1`, each once and contiguous.",
+        text="Library: 2-4 tasks run Exec/Unmarshal/GetCursorString/BuildExpr on one shared tree, one pool of compiled expressions and one set of bindings (incl. shared node-set variables with spare capacity); every operation must return its isolated-world result, the shared world must be unchanged after the join, and the -race build of the same seeds must report nothing in /repo code; tasks also parse documents concurrently (what every CLI worker does first). CLI: `-c N` under drawn schedules (uniform, priority change points, run-to-block, starvation; yields in xsel/xsel.go and, one in four, inside parser/store/exec) must terminate by main returning and print exactly the per-file blocks of `-c 1`, each once and contiguous.",
         note="Yield granularity is the Go statement; the generated lexer/GLL parser and map-ranging build-time functions are not yield-instrumented (BuildExpr is atomic in the plain build; the race build still sees their memory accesses). GOMAXPROCS=1 inside simulations. A mutant that adds blocking primitives to the library makes scheduler L inconclusive (exit 2)."),
     "C15": dict(
         engine="hostile", category="exploration", design_ref="§6.5",
         technique="deterministic simulation with heavy fault injection at every seam: failing/garbage streams into all readers, failing/panicking/nil-returning callbacks, nil and odd bindings, unfillable Unmarshal targets, boundary-class numerics and token-mutated expressions; oracle = terminates, value xor error, no panic, no internal 'xpath query panic' for well-typed queries",
-        text="Seeded hostile runs of three kinds (streams, queries, Unmarshal targets) under a monitor that catches escaped panics, (nil, nil) returns and internal-panic errors; worker-process aborts and hangs (180 s watchdog) are attributed to the run in progress.",
+        text="Seeded hostile runs of three kinds (streams, queries, Unmarshal targets) under a monitor that catches escaped panics, (nil, nil) returns and internal-panic errors; worker-process aborts (16 MiB stack ceiling: unbounded recursion ends the process quickly) and hangs (180 s watchdog) are attributed to the run in progress; violations that depend on state left by earlier runs of the same process are replayed together with those runs.",
         note="Arbitrary byte strings as *expression* are only sampled (pure-input clause; the simulator adds nothing there). 'xpath query panic' is judged only for un-mutated generated expressions in runs without panicking/nil callbacks or nil variables."),
     "C20": dict(
         engine="cli", category="exploration", design_ref="§6.8",
